@@ -24,6 +24,7 @@ type nativeCase struct {
 	Expect  string            `json:"expect,omitempty"`
 	Obs     map[string]string `json:"obs,omitempty"`
 	Records map[string]int64  `json:"records,omitempty"`
+	Params  map[string]int    `json:"params,omitempty"`
 }
 
 type nativeResult struct {
@@ -38,7 +39,7 @@ type nativeResult struct {
 }
 
 func caseOf(id string, j Job, v interp.Violation) nativeCase {
-	c := nativeCase{ID: id, Fn: j.Fn, Fn2: j.Fn2, Inputs: v.W.Inputs, Chooses: v.W.Chooses, Coins: v.W.Coins, Obs: v.W.Obs, Records: v.W.Records}
+	c := nativeCase{ID: id, Fn: j.Fn, Fn2: j.Fn2, Inputs: v.W.Inputs, Chooses: v.W.Chooses, Coins: v.W.Coins, Obs: v.W.Obs, Records: v.W.Records, Params: j.Params}
 	if c.Inputs == nil {
 		c.Inputs = map[string]uint64{}
 	}
